@@ -150,3 +150,10 @@ def rules(t):
     out.append(r)
     out.append(W3.event_fifo(t, "C12.d"))
     return out
+
+_rules_C12_w5d = rules
+def rules(t, *a, **kw):
+    import rules.wave5 as W5
+    out = _rules_C12_w5d(t, *a, **kw)
+    out.append(W5.connect_event_total(t, "C12.e"))
+    return out
